@@ -23,7 +23,7 @@ import (
 func TestMain(m *testing.M) {
 	kit.Main(m, "C17", "fault_enumeration",
 		"both AWS KMS plugins built through their public constructors (v1: NewAWS then the exported Clients[i].KMS replaced; v2: Builder + WithKMSFactory) over fake regional endpoints with their own master keys, call log and retained plaintext slices. "+
-			"ENUMERATED: 1..3 regions (thorough: 4), every preferred region, every subset of regions failing GenerateDataKey x every subset failing Encrypt at wrap time, then for every envelope every preferred region of the unwrapper x every subset failing Decrypt x every subset returning wrong bytes, wrapper and unwrapper each in {v1, v2} (envelopes are exchanged between the plugins). "+
+			"ENUMERATED: 1..3 regions (thorough: 4), every preferred region (and a preferred region that is not configured), every subset of regions failing GenerateDataKey x every subset failing Encrypt at wrap time, then for every envelope every preferred region of the unwrapper x every subset failing Decrypt x every subset returning wrong bytes, wrapper and unwrapper each in {v1, v2} (envelopes are exchanged between the plugins). "+
 			"Oracle from the fakes' call logs: wrap succeeds iff some region can generate, generation is attempted preferred-first, each region at most once, stopping at the first success; the envelope (documented JSON shape) has exactly one entry for the generating region and one per region whose Encrypt succeeded; "+
 			"unwrap returns the identical key bytes iff some configured region with an entry can decrypt correctly, is attempted preferred-first over regions that have entries, never on regions without one, stops at the first success; the data-key plaintext handed out by the generating region is zero when EncryptKey returns (the unwrap-side wipe belongs to C10). "+
 			"One evaluation = one wrap or unwrap case. Non-trivial = at least one region failed in the case; all enumerated cases are distinct by construction",
@@ -153,7 +153,7 @@ func TestEnumerateRegionFailures(t *testing.T) {
 			return p, err
 		}
 		for _, wrapper := range []string{"v1", "v2"} {
-			for _, wrapPref := range regions {
+			for _, wrapPref := range append(append([]string{}, regions...), "nowhere-1") {
 				for genMask := 0; genMask < 1<<n; genMask++ {
 					unit++
 					if unit%shards != shard {
@@ -185,7 +185,7 @@ func TestEnumerateRegionFailures(t *testing.T) {
 						}
 						// unwrap phase
 						for _, unwrapper := range []string{"v1", "v2"} {
-							for _, unwrapPref := range regions {
+							for _, unwrapPref := range append(append([]string{}, regions...), "nowhere-1") {
 								for decMask := 0; decMask < 1<<n; decMask++ {
 									for wrongMask := 0; wrongMask < 1<<n; wrongMask++ {
 										if decMask&wrongMask != 0 {
@@ -245,7 +245,7 @@ func checkWrap(t *testing.T, c caseDesc, w *fakes.KMSWorld, regions []string, en
 	if len(gens) == 0 {
 		fail(t, c, w, "no GenerateDataKey call at all")
 	}
-	if gens[0].Region != c.wrapPref {
+	if _, configured := w.Regions[c.wrapPref]; configured && gens[0].Region != c.wrapPref {
 		fail(t, c, w, "data key generation started in %s, not in the preferred region %s", gens[0].Region, c.wrapPref)
 	}
 	seen := map[string]bool{}
